@@ -785,7 +785,7 @@ pub fn udp_smoke(ctx: &Ctx) -> SubResult {
 }
 
 pub fn run(ctx: &Ctx, report: &mut Report) {
-    report.push(run_proptest(ctx, "scripted-transport", ctx.cases(30_000, 1_000_000), 800, case_strategy, exec_srv));
+    report.push(run_proptest(ctx, "scripted-transport", ctx.cases(30_000, 300_000), 800, case_strategy, exec_srv));
     report.push(udp_smoke(ctx));
 }
 
